@@ -636,7 +636,7 @@ XalanEXSLTFunctionDecodeURI::hexCharsToByte(
         else if (curChar >= XalanUnicode::charLetter_a
                  && curChar <= XalanUnicode::charLetter_f)  // Lowercase
         {
-            byte = byte + XalanDOMChar((curChar - XalanUnicode::charLetter_a + 10) << place);
+            byte = byte + XalanDOMChar((curChar - XalanUnicode::charLetter_a + 10) << (place * 4));
         }
         else 
         {
